@@ -255,7 +255,28 @@ class P(Prop):
             mem = [pool.pop() for _ in range(k)]
             blocks.append(mem)
             sp = strong if rng.random() < 0.85 else anyp
-            if kind == "chain":
+            # a link between two groups may ALSO be listed for a protein that keeps a peptide of its own (an identified
+            # group): it still connects the groups without a peptide of their own and still counts as a shared peptide
+            via_anchor = rng.random() < 0.3
+
+            link_no = [0]
+
+            def link(ps):
+                # consecutive links go to DIFFERENT anchors (the same anchor on both links of a protein would make the
+                # protein a subset of the anchor), every third link to none
+                link_no[0] += 1
+                if via_anchor and link_no[0] % 3 != 0:
+                    while len(anchors) < 2 and pool:
+                        anchors.append(pool.pop())
+                    if anchors:
+                        return list(ps) + [anchors[link_no[0] % len(anchors)]]
+                return list(ps)
+
+            if via_anchor and kind in ("chain", "cycle"):
+                seq = zip(mem, mem[1:]) if kind == "chain" else zip(mem, mem[1:] + mem[:1])
+                for a, b in seq:
+                    peps.append((link([a, b]), sp()))
+            elif kind == "chain":
                 for a, b in zip(mem, mem[1:]):
                     peps.append(([a, b], sp()))
             elif kind == "cycle":
